@@ -178,3 +178,6 @@ def run_proofs(ctx):
     from vf.proofs.terms import run_terms
 
     run_terms(ctx, "C20")
+    from vf.proofs.c20_spec import run_proofs as spec_proofs
+
+    spec_proofs(ctx)
